@@ -737,6 +737,91 @@ def rule_no_stale_link_caches(ctx, rep, rid: str) -> None:
 
 
 # ------------------------------------------------------------------------ C11
+_SCALARS = {"bool", "int", "float", "str"}
+
+
+def _scalar_tuple(e: ast.AST, f, ctx, depth: int = 0) -> bool:
+    """Does e denote a tuple of the host scalar types only (directly, through a local alias, a class attribute or a
+    module constant)?"""
+    if depth > 3:
+        return False
+    if isinstance(e, ast.Name) and e.id in _SCALARS:
+        return True
+    if isinstance(e, ast.Tuple):
+        return bool(e.elts) and all(isinstance(x, ast.Name) and x.id in _SCALARS for x in e.elts)
+    if isinstance(e, ast.Name):
+        vals = [a.value for a in f.own_nodes() if isinstance(a, ast.Assign) and any(isinstance(t, ast.Name) and t.id == e.id for t in a.targets)]
+        if vals:
+            return all(_scalar_tuple(v, f, ctx, depth + 1) for v in vals)
+        for n in f.module.tree.body:
+            if isinstance(n, ast.Assign) and any(isinstance(t, ast.Name) and t.id == e.id for t in n.targets):
+                return _scalar_tuple(n.value, f, ctx, depth + 1)
+        return False
+    if isinstance(e, ast.Attribute) and norm(e.value) in ("self", "cls") and f.cls is not None:
+        for n in f.cls.node.body:
+            if isinstance(n, ast.Assign) and any(isinstance(t, ast.Name) and t.id == e.attr for t in n.targets):
+                return _scalar_tuple(n.value, f, ctx, depth + 1)
+    return False
+
+
+def flat_predicates(ctx) -> Set[str]:
+    """Names of functions that answer True only when every item of their one iterable parameter is an instance of the
+    host scalar types bool/int/float/str (values that are the same object on both sides of the boundary)."""
+    cached = getattr(ctx, "_flat_predicates", None)
+    if cached is not None:
+        return cached
+    out: Set[str] = set()
+    for f in ctx.tree.funcs:
+        if isinstance(f.node, ast.Lambda):
+            continue
+        ps = [p for p in f.params() if p != "self"]
+        if len(ps) != 1:
+            continue
+        rets = [r for r in f.own_nodes() if isinstance(r, ast.Return)]
+        if not rets:
+            continue
+        ok = True
+        saw_true = False
+        for r in rets:
+            v = r.value
+            if isinstance(v, ast.Constant) and v.value is False:
+                continue
+            if isinstance(v, ast.Constant) and v.value is True:
+                # reached only past a loop over the parameter that returns False for every non-scalar item
+                loops = [l for l in f.own_nodes() if isinstance(l, ast.For) and norm(l.iter) == ps[0] and isinstance(l.target, ast.Name)]
+                good = False
+                for l in loops:
+                    for i in l.body:
+                        if isinstance(i, ast.If) and isinstance(i.test, ast.UnaryOp) and isinstance(i.test.op, ast.Not) and isinstance(i.test.operand, ast.Call) and norm(i.test.operand.func) == "isinstance" and norm(i.test.operand.args[0]) == l.target.id and _scalar_tuple(i.test.operand.args[1], f, ctx) and i.body and isinstance(i.body[-1], ast.Return) and isinstance(i.body[-1].value, ast.Constant) and i.body[-1].value.value is False:
+                            good = True
+                if not good or r._parent is not f.node:
+                    ok = False
+                saw_true = True
+                continue
+            if isinstance(v, ast.Call) and norm(v.func) == "all" and len(v.args) == 1 and isinstance(v.args[0], ast.GeneratorExp):
+                g = v.args[0]
+                if len(g.generators) == 1 and norm(g.generators[0].iter) == ps[0] and not g.generators[0].ifs and isinstance(g.elt, ast.Call) and norm(g.elt.func) == "isinstance" and norm(g.elt.args[0]) == norm(g.generators[0].target) and _scalar_tuple(g.elt.args[1], f, ctx):
+                    saw_true = True
+                    continue
+            ok = False
+        if ok and saw_true:
+            out.add(f.name)
+    ctx._flat_predicates = out
+    return out
+
+
+def _flat_guarded(ctx, node: ast.AST, f, container: str) -> bool:
+    """Is node reached only after a flat predicate accepted `container` (its items are host scalars)?"""
+    from ..util import atoms, known_conditions
+
+    preds = flat_predicates(ctx)
+    for t, pol in known_conditions(node, f.node):
+        for a, p in atoms(t, pol):
+            if p and isinstance(a, ast.Call) and (norm(a.func).split(".")[-1] in preds) and len(a.args) == 1 and norm(a.args[0]).replace(" ", "") == container.replace(" ", ""):
+                return True
+    return False
+
+
 def rule_fresh_containers(ctx, rep, rid: str) -> None:
     rep.rule(rid, "values cross the Python boundary as freshly built containers: _to_python returns new lists/dicts of recursively converted elements, _to_js stores only converted elements, and eval/get return only through _to_python", floor=6)
     t = ctx.tree
@@ -757,6 +842,8 @@ def rule_fresh_containers(ctx, rep, rid: str) -> None:
             recursive = any(isinstance(c, ast.Call) and norm(c.func) == "self._to_python" for c in ast.walk(elt))
         if fresh and recursive:
             rep.ok(rid, key)
+        elif fresh and isinstance(v, ast.Call) and len(v.args) == 1 and (_flat_guarded(ctx, r, tp, norm(v.args[0])) or _flat_guarded(ctx, r, tp, norm(v.args[0]) + ".values()")):
+            rep.ok(rid, key, {"note": "a copy of a container that a flat predicate found to hold host scalars only: nothing below it to convert"})
         else:
             what = "the interpreter's own container (or a view of it)" if not fresh else "a new container whose elements are not converted"
             rep.bad(rid, key, f"_to_python hands out {short(v, 50)}: {what} escapes to the embedder, who can then mutate script state or see internal values", f"{tp.module.rel}:{r.lineno}")
@@ -781,6 +868,35 @@ def rule_fresh_containers(ctx, rep, rid: str) -> None:
                 rep.ok(rid, key)
             else:
                 rep.bad(rid, key, f"_to_js stores {short(val, 30)} without converting it", f"{tj.module.rel}:{n.lineno}")
+    # bulk stores: extend/update copy the embedder's members as they are
+    for n in tj.own_nodes():
+        if not (isinstance(n, ast.Call) and isinstance(n.func, ast.Attribute) and n.func.attr in ("extend", "update") and isinstance(n.func.value, ast.Attribute) and n.func.value.attr in internal and len(n.args) == 1):
+            continue
+        src = n.args[0]
+        key = f"{tj.qual}:{norm(n.func)}({short(src, 30)})"
+        if n.func.attr == "extend":
+            if _flat_guarded(ctx, n, tj, norm(src)):
+                rep.ok(rid, key, {"note": "host scalars only (flat predicate)"})
+            else:
+                rep.bad(rid, key, f"_to_js copies the members of {short(src, 30)} into {norm(n.func.value)} without converting them and without a test that they are host scalars", f"{tj.module.rel}:{n.lineno}")
+            continue
+        # update: values and KEYS
+        if isinstance(src, (ast.GeneratorExp, ast.ListComp, ast.DictComp)):
+            kx, vx = (src.key, src.value) if isinstance(src, ast.DictComp) else ((src.elt.elts[0], src.elt.elts[1]) if isinstance(src.elt, ast.Tuple) and len(src.elt.elts) == 2 else (None, None))
+            it = norm(src.generators[0].iter)
+            base = it[: -len(".items()")] if it.endswith(".items()") else it
+            keys_ok = kx is not None and isinstance(kx, ast.Call) and norm(kx.func) == "str"
+            vals_ok = vx is not None and ((isinstance(vx, ast.Call) and norm(vx.func) == "self._to_js") or _flat_guarded(ctx, n, tj, base + ".values()"))
+        else:
+            base = norm(src)
+            keys_ok = False
+            vals_ok = _flat_guarded(ctx, n, tj, base + ".values()")
+        if keys_ok and vals_ok:
+            rep.ok(rid, key)
+        elif not vals_ok:
+            rep.bad(rid, key, f"_to_js copies the values of {short(src, 30)} into {norm(n.func.value)} without converting them and without a test that they are host scalars", f"{tj.module.rel}:{n.lineno}")
+        else:
+            rep.bad(rid, key, f"_to_js copies the KEYS of {short(src, 30)} into {norm(n.func.value)} as they are: property keys are strings for the script, so a host dict keyed by 1 or None yields a property no script expression can reach (obj[1] looks up '1') while for..in and JSON see a non-string key; the item-by-item path stores str(k)", f"{tj.module.rel}:{n.lineno}")
     sset = t.find_method(ctxcls, "set")
     txt = " ".join(norm(s) for s in sset.body())
     if "self._to_js(value)" in txt:
